@@ -108,6 +108,8 @@ def prog(env, case):
 
     alphabet = [(op, fi, pi) for op in ops for fi in range(len(fns)) for pi in range(len(pts))] + \
                [('stationary', fi, None) for fi in range(len(fns))]
+    if case.get('fixed'):
+        alphabet += [('fixed', fi, None) for fi in range(len(fns))]
     trace = []
     returned = []       # (function, point, g or None, f or None)
     stationary_decl = []
@@ -123,8 +125,16 @@ def prog(env, case):
             stationary_decl.append((fname, fn, xs))
             trace.append("%s.stationary_point()" % fname)
             continue
+        if op == 'fixed':
+            xf, gf, vf_ = fn.fixed_point()
+            returned.append((fname, fn, xf, gf, vf_))
+            env.check(gf is xf or same_map(env, pform(gf), pform(xf)), "[%s] %s.fixed_point(): the recorded image is not the "
+                      "point itself" % (" ; ".join(trace), fname), signature="C07:fixed-point:%s" % _kind(fname))
+            trace.append("%s.fixed_point()" % fname)
+            continue
         pname, x = pts[pi]
         trace.append("%s.%s(%s)" % (fname, op, pname))
+        earlier = [t[1] for t in fn.list_of_points]
         if op == 'oracle':
             g, v = fn.oracle(x)
             returned.append((fname, fn, x, g, v))
@@ -134,6 +144,13 @@ def prog(env, case):
         else:
             g = fn.gradient(x)
             returned.append((fname, fn, x, g, None))
+        if op in ('oracle', 'gradient') and fname in ('f1', 'f2') and not fn.reuse_gradient:
+            # a non-differentiable function "may return a new subgradient each time": the model must leave room for one,
+            # i.e. every query records a FRESH free subgradient (also at a point declared stationary, where 0 is only one
+            # of the admissible subgradients)
+            env.check(g.get_is_leaf() and not any(g is b for b in earlier),
+                      "[%s] a repeated query of the non-differentiable %s returned an already recorded (sub)gradient instead "
+                      "of a fresh one" % (" ; ".join(trace), fname), signature="C07:subgradient-not-fresh:leaf")
     tr = " ; ".join(trace)
     # ---- (A) one value per point, one gradient per point if differentiable -------------------------------------
     for fname, fn in fns:
@@ -181,8 +198,9 @@ def prog(env, case):
             if not ok:
                 continue
             vref = lin_comb([(eform(c[0][2]), w) for (w, c) in per_term])
-            shape = ("%s%s" % (":all-weights-zero" if not per_term else "",
-                               ":stationary-sample" if len(g.decomposition_dict) == 0 else ""))
+            shape = ("%s%s%s" % (":all-weights-zero" if not per_term else "",
+                                 ":stationary-sample" if len(g.decomposition_dict) == 0 else "",
+                                 ":fixed-point-sample" if (g is x and len(g.decomposition_dict) > 0) else ""))
             env.check(same_map(env, eform(v), vref), "[%s] value of %s at a point is not the weighted sum of its terms' "
                       "values there" % (tr, fname), signature="C07:sum-value:%s%s" % (_kind(fname), shape))
             found = False
@@ -220,7 +238,11 @@ def cases(tier):
         n_nest = 2 * 5 * 2 + 5
         for first in range(n_nest):
             cs.append(dict(id="sub2-first%02d" % first, length=2, forced=[first], nested=True, nested_variant=1))
+        for first in range(n_alpha + 3):
+            cs.append(dict(id="fix2-first%02d" % first, length=2, forced=[first], fixed=True))
     else:
+        for first in range(n_alpha + 3):
+            cs.append(dict(id="fix3-first%02d" % first, length=3, forced=[first], fixed=True))
         for first in range(n_alpha):
             for second in range(n_alpha + 1):
                 cs.append(dict(id="len4-%02d-%02d" % (first, second), length=4, forced=[first, second]))
@@ -253,4 +275,4 @@ def main(tier, only=None):
         bounds=dict(history_length=3 if tier == 'quick' else "4 (base alphabet); extended alphabet (nested sums, gradient(), a twin "
                                                              "Point object): 2, and 3 for a fixed grid of first-two-operation "
                                                              "pairs",
-                    leaf_functions=2, outside="more than 2 leaf functions, longer histories, fixed_point / steps"))
+                    leaf_functions=2, outside="more than 2 leaf functions, longer histories, primitive steps in histories"))
